@@ -1016,6 +1016,9 @@ pub struct PairCfg {
     /// Retry token lifetime (quinn's default is 15 s; progress checks use a long one so that
     /// long enumerated loss runs do not legitimately expire the token)
     pub retry_token_lifetime: Duration,
+    /// EndpointConfig::max_udp_payload_size of the server / client endpoint (advertised limit)
+    pub server_max_udp: Option<u16>,
+    pub client_max_udp: Option<u16>,
 }
 
 impl Default for PairCfg {
@@ -1037,6 +1040,8 @@ impl Default for PairCfg {
             seed: 0,
             tokens_sent: 0,
             retry_token_lifetime: Duration::from_secs(1_000_000),
+            server_max_udp: None,
+            client_max_udp: None,
         }
     }
 }
@@ -1113,8 +1118,17 @@ impl<A: App> Pair<A> {
         w.max_datagrams = cfg.max_datagrams;
         let keylog = Arc::new(mtls::KeyLog::default());
         let sc = server_config(cfg, keylog.clone(), w.sim_time.clone());
-        let s = w.add_node(1 + cfg.seed, cfg.cid_len, cfg.cid_lifetime, Some(Arc::new(sc)), |_| {});
-        let c = w.add_node(2 + cfg.seed, cfg.cid_len, cfg.cid_lifetime, None, |_| {});
+        let (smu, cmu) = (cfg.server_max_udp, cfg.client_max_udp);
+        let s = w.add_node(1 + cfg.seed, cfg.cid_len, cfg.cid_lifetime, Some(Arc::new(sc)), |e| {
+            if let Some(m) = smu {
+                e.max_udp_payload_size(m).unwrap();
+            }
+        });
+        let c = w.add_node(2 + cfg.seed, cfg.cid_len, cfg.cid_lifetime, None, |e| {
+            if let Some(m) = cmu {
+                e.max_udp_payload_size(m).unwrap();
+            }
+        });
         assert_eq!((s, c), (SERVER, CLIENT));
         if cfg.retry {
             w.nodes[SERVER].policy = AcceptPolicy::Retry;
